@@ -52,3 +52,16 @@ Proof.
       - cbn [app]. rewrite <- app_assoc. cbn [app]. f_equal. f_equal. rewrite <- app_assoc. reflexivity. }
   rewrite (crossheading_converts uri prefix us root_meta att_meta Hm Ws). rewrite Ds. reflexivity.
 Qed.
+
+(* C13 through the whole pipeline, for a crossheading: its text written with every character behind a backslash comes out as exactly
+   those characters - whatever they spell *)
+Theorem escaped_crossheading_converts uri prefix t root_meta att_meta :
+  assoc_str uri meta_templates = Some (root_meta, att_meta) ->
+  escapable t ->
+  convert uri (of_string "hier_element") prefix (CH ++ 32 :: esc t ++ [NL])
+  = OkR (El CHT [(EID, candidate prefix CHT (of_string "1"))] [Tx t]).
+Proof.
+  intros Hm Ht. destruct (escaped_written t Ht) as (Wt & Eet & Edt).
+  pose proof (crossheading_converts uri prefix (map Esc t) root_meta att_meta Hm Wt) as H.
+  rewrite Eet, Edt in H. exact H.
+Qed.
